@@ -85,6 +85,10 @@ def _wide_shuffled():
 def c01():
     return [
         _wide_shuffled(),
+        # an I/O error surfaces when a chunk is flushed: the creation may fail, it must not report
+        # success over a table that holds a chunk twice
+        [create("f0", "/a", L_FIXED, PX5, chunks=[3, 2, 2], form="iter", fault={"kind": "F10", "flush": k})
+         for k in (0, 1, 2)],
         # a small chunk followed by a chunk larger than any plausible write-buffer threshold
         # (65 536 rows), then small ones again: order and offsets across buffering boundaries
         [{"op": "bigcreate", "file": "f0", "path": "/big", "nbins": [300, 200], "splits": [0.0001, 0.0001, 0.7, 0.7001]}],
